@@ -18,7 +18,8 @@ func c19(c *eng.Ctx, r *eng.Report) {
 		"R19.1 save and remove are inverses key family by key family — the group record, the last-group pointer, the height index entry of exactly the added/removed group (index = count before the addition = count-1 before the removal) and the count; both update the in-memory count and last group; " +
 		"R19.2 AddGroup saves only under the chain lock, after the parent exists and the predecessor equals the current last group; " +
 		"R19.3 start-up reloads exactly the keys save writes and height lookups use the same key derivation; " +
-		"R19.4 count, lastGroup and the groups store are written only by save, remove and initGroupChain. " +
+		"R19.4 count, lastGroup and the groups store are written only by save, remove and initGroupChain; " +
+		"R19.5 every caller of remove walks from the current top downwards (remove is only correct for the last group). " +
 		"Not decided: a crash between the un-batched Puts of one save/remove (no intent mark exists)."
 	r.Assume = []string{"groupChain methods that mutate run under chain.lock (checked for AddGroup; removeFromCommonAncestor takes it itself)"}
 	save := c.Func("core", "(*groupChain).save")
@@ -34,6 +35,7 @@ func c19(c *eng.Ctx, r *eng.Report) {
 		}
 	}
 	c19Inverse(c, r, save, remove)
+	c19RemoveTopDown(c, r, remove)
 	c19AddGroup(c, r)
 	c19Keys(c, r, save)
 	c19Writers(c, r)
@@ -171,6 +173,56 @@ func c19Inverse(c *eng.Ctx, r *eng.Report, save, remove *ssa.Function) {
 	for _, fn := range []*ssa.Function{save, remove} {
 		okMem := len(eng.FieldStores(fn, "core.groupChain", "count")) == 1 && len(eng.FieldStores(fn, "core.groupChain", "lastGroup")) == 1
 		r.Check(okMem, rule, "memory:"+eng.FuncName(fn), c.Pos(fn.Pos()), "in-memory count and lastGroup are updated", eng.FuncName(fn)+" does not update both the in-memory count and lastGroup")
+	}
+}
+
+// c19RemoveTopDown: remove() re-points the last-group pointer at the removed
+// group's predecessor and deletes index[count-1]; it is only correct for the
+// current last group, so every caller must walk from the top downwards.
+func c19RemoveTopDown(c *eng.Ctx, r *eng.Report, remove *ssa.Function) {
+	const rule = "R19.5"
+	r.Min(rule, 1)
+	for i, site := range c.Callers(remove) {
+		fn := site.Fn
+		key := fmt.Sprintf("remove-caller:%s#%d", eng.FuncName(fn), i)
+		arg := site.Common().Args[1]
+		// the group comes from getGroupByHeight(h) with h a loop variable initialised from the top and decremented
+		var h ssa.Value
+		if call, ok := arg.(*ssa.Call); ok && strings.HasSuffix(eng.CallName(&call.Call), ".getGroupByHeight") {
+			h = call.Call.Args[1]
+		}
+		phi, _ := h.(*ssa.Phi)
+		okInit, okStep := false, false
+		// equivalent idiom: the group is re-read from chain.lastGroup before every call
+		isLast := func(v ssa.Value) bool {
+			u, isU := v.(*ssa.UnOp)
+			return isU && u.Op == token.MUL && strings.HasSuffix(eng.Desc(u), ".lastGroup")
+		}
+		if u, isU := arg.(*ssa.UnOp); isU && isLast(u) && u.Block() == site.Instr.Block() {
+			okInit, okStep = true, true
+		}
+		if gp, isP := arg.(*ssa.Phi); isP {
+			all := len(gp.Edges) > 0
+			for _, e := range gp.Edges {
+				all = all && isLast(e)
+			}
+			if all {
+				okInit, okStep = true, true
+			}
+		}
+		if phi != nil {
+			for _, e := range phi.Edges {
+				d := eng.Desc(e)
+				if bo, isB := e.(*ssa.BinOp); isB && bo.Op == token.SUB && bo.X == ssa.Value(phi) {
+					if k, isK := eng.ConstInt(bo.Y); isK && k == 1 {
+						okStep = true
+					}
+				} else if strings.Contains(d, ".height(") || strings.Contains(d, ".count - 1") {
+					okInit = true
+				}
+			}
+		}
+		r.Check(okInit && okStep, rule, key, c.Pos(site.Pos()), "groups are removed from the current top downwards (height starts at chain.height() and decreases by one)", eng.FuncName(fn)+" does not call remove() on the groups from the top downwards (starts at the top="+fmt.Sprint(okInit)+", steps by -1="+fmt.Sprint(okStep)+"): remove() assumes it is given the current last group, so with two or more groups to drop the wrong index entry is deleted and count, list and height index diverge")
 	}
 }
 
